@@ -773,6 +773,85 @@ def g6_cursor(prog, rep):
         rep.ok("G6-cursor", "every crc32 operand of %s is read at the cursor" % f.name, f.loc)
 
 
+def g10_keyread(prog, rep):
+    """The AES-NI key expansion reads the key it was handed and no further: every 16-byte load from the unexpanded key at offset o
+    -- in crypto_aes_key_expand_aesni itself or, through its static helpers, at the call that hands the key on -- is made where
+    len >= o + 16 is established (sa/poly.py).  The software expansion reads exactly len bytes; a load beyond them leaves the
+    results alike and the behaviour not (the 16 bytes after an AES-128 key need not be mapped)."""
+    from .. import poly
+    from ..poly import Lin
+    up = "crypto/crypto_aes_aesni.c"
+    if up not in prog.units:
+        return 0
+    u = prog.unit(up)
+    top = u.func("crypto_aes_key_expand_aesni")
+    if top is None:
+        if not [f for f in u.funcs if f.file == up]:
+            return 0
+        raise cdb.AnalysisBroken("anchor missing: crypto_aes_key_expand_aesni")
+    KEY = ("v", top.params[0]["name"], top.params[0]["id"])
+    LEN = ("v", top.params[1]["name"], top.params[1]["id"])
+
+    def reads(f, key, depth=0):
+        """[(element of f, bytes of the key needed by it)]: loads and copies from `key`, and calls handing it on"""
+        out = []
+        for c in f.calls():
+            if not c.callee:
+                continue
+            for i, a in enumerate(c.args):
+                if a is None:
+                    continue
+                t = norm(a)
+                while t[0] == "cast":
+                    t = t[-1]
+                off = None
+                if t == key:
+                    off = 0
+                elif t[0] == "&" and t[1][0] == "[]" and t[1][1] == key and t[1][2][0] == "c":
+                    off = t[1][2][1]
+                elif t[0] == "+" and len(t) == 3 and t[1] == key and t[2][0] == "c":
+                    off = t[2][1]
+                elif any(x == key for x in subterms(t)):
+                    out.append((c, None))
+                    continue
+                if off is None:
+                    continue
+                if c.callee in ("_mm_loadu_si128", "_mm_load_si128", "_mm_lddqu_si128"):
+                    out.append((c, off + 16))
+                elif c.callee == "_mm_loadl_epi64":
+                    out.append((c, off + 8))
+                elif c.callee in ("memcpy", "memcmp") and i in (0, 1):
+                    n = norm(c.arg(2))
+                    out.append((c, off + n[1] if n[0] == "c" else None))
+                else:
+                    g = prog.resolve(f, c.callee) if hasattr(prog, "resolve") else None
+                    if g is None or g.file.startswith("/") or depth >= 2 or i >= len(g.params):
+                        out.append((c, None))
+                    else:
+                        inner = reads(g, ("v", g.params[i]["name"], g.params[i]["id"]), depth + 1)
+                        need = [nb for _, nb in inner]
+                        out.append((c, None if (None in need) else (off + max(need) if need else 0)))
+        return out
+    A = poly.Analysis(top, quiet={"malloc", "free", "warn0", "libcperciva_warn0"} | {f.name for f in u.funcs if f.file == up}, unsigned_terms={LEN}).run()
+    n = 0
+    # the lengths the function accepts at all (its `len == c` tests): the shortest of them is there for every valid call, so a read
+    # within it made before the length is looked at is not held against the function
+    from ..dataflow import cond_atoms
+    accepted = [R[1] for b in top.blocks.values() if b.cond is not None for op, L, R, _, _ in cond_atoms(b.cond, True)
+                if op == "==" and L == LEN and R[0] == "c" and isinstance(R[1], int)]
+    floor = min(accepted) if accepted else 0
+    for c, need in reads(top, KEY):
+        st = A.state_before(c)
+        if st is None:
+            continue
+        n += 1
+        ok = need is not None and (need <= floor or A.holds(st, ">=", Lin.var(LEN), Lin.const(need)))
+        rep.check(ok, "G10-keyread", "%s reads no more of the key than len says there is" % c.text[:50], c.where,
+                  ("this reads the key up to byte %d where len >= %d is not established: with a shorter key it reads past the key's end, which the software expansion never does" % (need, need))
+                  if need is not None else "the amount of the key read here is not something the analysis can follow", function=top.name, construct="keyread")
+    return n
+
+
 def run(tier):
     rep = report.Report("C03", tier,
         "Decided in every analysed feature configuration: instruction-set specific routines are used only under the matching selector, "
@@ -801,6 +880,8 @@ def run(tier):
             g7_schedule(prog, rep)
             g8_sse2_schedule(prog, rep)
             g9_shani_transform(prog, rep)
+            if g10_keyread(prog, rep) < 2:
+                rep.defer_broken("G10: fewer than 2 reads of the unexpanded key found in crypto_aes_key_expand_aesni")
             # ... and its sixty-four rounds and round constants are FIPS 180-4's (C01's rules on the sibling's own copy of them)
             if "alg/sha256_sse2.c" in prog.units:
                 from . import c01 as _c01
